@@ -31,13 +31,16 @@ ASSUMPTIONS = [
 BOUNDS = {'quick': {'times': 2, 'deviating_cells': 2},
           'thorough': {'times': 3, 'deviating_cells': 2}}
 
-VALUES = [0, False, '', [], 1.5, 'x', [1, 2], 'Q', 'Q2', 'LQ']
+VALUES = [0, False, '', [], 1.5, 'x', [1, 2], 'Q', 'Q2', 'LQ', 'Q0']
 FILLER = 'x'
 
 
 def value(v):
     if v == 'Q':
         return 2.5 * units.fg
+    if v == 'Q0':
+        # a quantity whose magnitude is zero (a falsy quantity)
+        return 0.0 * units.fg
     if v == 'Q2':
         # one base unit raised to a power
         return 2.0 * units.um ** 2
@@ -59,6 +62,9 @@ def tree_shapes():
     out.append({'a': {'time': leaf}})
     out.append({'a': {'time': leaf, 'ab': leaf}})
     out.append({'g': {'time': leaf}, 'a': leaf})
+    # variables three levels deep that share their first TWO keys
+    out.append({'g': {'h': {'a': leaf, 'ab': leaf}}})
+    out.append({'g': {'h': {'a': leaf, 'ab': leaf}, 'a': leaf}})
     return out
 
 
@@ -450,3 +456,6 @@ def replay(case):
 
 RULE += (
     ' Cell values also include a quantity in a squared unit and a list that starts with a number and holds a quantity (one column per unit string, exponents included).')
+
+RULE += (
+    ' Shapes of depth 3 (g.h.{a, ab}) and the zero quantity 0.0 fg as a cell value: a query for a store plus one of its variables returns every variable once, falsy ones included.')
